@@ -902,9 +902,12 @@ class Interp:
         elif kind == "crowd":
             from asphalt.core import Context
 
+            from contextlib import AsyncExitStack
+
             self.labels.add("crowd-of-contexts")
-            for k in range(op["k"]):
-                async with Context() as c:
+            async with AsyncExitStack() as stack:  # (a chain: all of them are alive at the same time)
+                for k in range(op["k"]):
+                    c = await stack.enter_async_context(Context())
                     c.add_resource(_Unrelated(), f"crowd{k}", types=[_Unrelated])
             self.trace.append(["crowd", op["k"]])
         else:
@@ -1703,7 +1706,9 @@ def run_case(case: dict, prop: str) -> Outcome:
     except Deadlock as exc:
         if it.harness_exc is not None:
             raise HarnessError("harness exception inside the run") from it.harness_exc
-        it.disc(["crash", "generation"], "deadlock", f"history deadlocked: {exc}; trace tail {it.trace[-3:]}")
+        # (a valid history that never completes concerns every property judged on it - e.g. a listener that never
+        # receives what was dispatched on its context)
+        it.disc(["crash", "generation", "event", "identity"], "deadlock", f"history deadlocked: {exc}; trace tail {it.trace[-3:]}")
     except BaseException as exc:
         from harness.core import flatten_exc, innermost_is_harness
 
